@@ -20,9 +20,11 @@ package storage
 // the publish properties a stored message keeps
 // verif:def msgPropsKept(r *Message, pk packets.Packet) bool = r != nil && r.Properties.PayloadFormat == pk.Properties.PayloadFormat && r.Properties.MessageExpiryInterval == pk.Properties.MessageExpiryInterval && r.Properties.ContentType == pk.Properties.ContentType && r.Properties.ResponseTopic == pk.Properties.ResponseTopic && sameBytes(r.Properties.CorrelationData, pk.Properties.CorrelationData) && len(r.Properties.User) == len(pk.Properties.User)
 // verif:def msgPayloadFormatFlagKept(r *Message, pk packets.Packet) bool = r != nil && (r.Properties.PayloadFormatFlag <==> pk.Properties.PayloadFormatFlag)
-// verif:def inflightIdentity(r *Message, cl *mqtt.Client, pk packets.Packet, sent int64) bool = r != nil && r.T == "IFM" && r.Client == cl.ID && r.Origin == pk.Origin && r.PacketID == pk.PacketID && r.Sent == sent && r.Created == pk.Created
+// what the housekeeping reads to decide whether a message has expired (clearExpiredRetainedMessages, ClearExpiredInflights)
+// verif:def expiryInputsKept(r *Message, pk packets.Packet) bool = r != nil && r.Created == pk.Created && r.Expiry == pk.Expiry && r.Version == pk.ProtocolVersion
+// verif:def inflightIdentity(r *Message, cl *mqtt.Client, pk packets.Packet, sent int64) bool = r != nil && r.T == "IFM" && r.Client == cl.ID && r.Origin == pk.Origin && r.PacketID == pk.PacketID && r.Sent == sent && expiryInputsKept(r, pk)
 // verif:def msgContent(r *Message, pk packets.Packet) bool = r != nil && r.FixedHeader.Type == pk.FixedHeader.Type && r.FixedHeader.Qos == pk.FixedHeader.Qos && r.FixedHeader.Dup == pk.FixedHeader.Dup && r.FixedHeader.Retain == pk.FixedHeader.Retain && r.TopicName == pk.TopicName && r.Payload == pk.Payload
-// verif:def retainedIdentity(r *Message, cl *mqtt.Client, pk packets.Packet) bool = r != nil && r.T == "RET" && r.Client == cl.ID && r.Origin == pk.Origin && r.Created == pk.Created
+// verif:def retainedIdentity(r *Message, cl *mqtt.Client, pk packets.Packet) bool = r != nil && r.T == "RET" && r.Client == cl.ID && r.Origin == pk.Origin && expiryInputsKept(r, pk)
 // verif:def subRecord(r *Subscription, cl *mqtt.Client, sub packets.Subscription, code byte) bool = r != nil && r.T == "SUB" && r.Client == cl.ID && r.Qos == code && r.Filter == sub.Filter && r.Identifier == sub.Identifier && r.NoLocal == sub.NoLocal && r.RetainHandling == sub.RetainHandling && r.RetainAsPublished == sub.RetainAsPublished
 // verif:def clientRecord(r *Client, cl *mqtt.Client) bool = r != nil && r.ID == cl.ID && r.T == "CL" && r.Remote == cl.Net.Remote && r.Listener == cl.Net.Listener && r.Username == cl.Properties.Username && r.Clean == cl.Properties.Clean && r.ProtocolVersion == cl.Properties.ProtocolVersion
 // verif:def clientRecordProps(r *Client, cl *mqtt.Client) bool = r != nil && r.Properties.SessionExpiryInterval == cl.Properties.Props.SessionExpiryInterval && r.Properties.ReceiveMaximum == cl.Properties.Props.ReceiveMaximum && r.Properties.TopicAliasMaximum == cl.Properties.Props.TopicAliasMaximum && r.Properties.MaximumPacketSize == cl.Properties.Props.MaximumPacketSize && r.Properties.RequestProblemInfo == cl.Properties.Props.RequestProblemInfo && r.Properties.RequestResponseInfo == cl.Properties.Props.RequestResponseInfo
@@ -31,3 +33,11 @@ package storage
 // ghost: number of writes / deletes handed to the store during a hook call (axiom clauses on setKv / delKv)
 // verif:ghost var nset int
 // verif:ghost var ndel int
+
+// ---- the restart path: what a stored message becomes (C20) ----
+// verif:func storage.Message.ToPacket
+//@ requires d != nil
+//@ ensures C20-restored-message-has-the-stored-header-topic-and-payload: r0.FixedHeader.Type == d.FixedHeader.Type && r0.FixedHeader.Qos == d.FixedHeader.Qos && (r0.FixedHeader.Dup <==> d.FixedHeader.Dup) && (r0.FixedHeader.Retain <==> d.FixedHeader.Retain) && r0.TopicName == d.TopicName && sameBytes(r0.Payload, d.Payload)
+//@ ensures C20-restored-message-has-the-stored-packet-id-origin-and-creation-time: r0.PacketID == d.PacketID && r0.Origin == d.Origin && r0.Created == d.Created
+//@ ensures C20-restored-message-has-the-stored-publish-properties: r0.Properties.PayloadFormat == d.Properties.PayloadFormat && (r0.Properties.PayloadFormatFlag <==> d.Properties.PayloadFormatFlag) && r0.Properties.MessageExpiryInterval == d.Properties.MessageExpiryInterval && r0.Properties.ContentType == d.Properties.ContentType && r0.Properties.ResponseTopic == d.Properties.ResponseTopic && sameBytes(r0.Properties.CorrelationData, d.Properties.CorrelationData) && len(r0.Properties.User) == len(d.Properties.User) && (forall i int :: 0 <= i && i < len(d.Properties.User) ==> r0.Properties.User[i] == d.Properties.User[i])
+//@ ensures C20-restored-message-expires-when-the-stored-one-did: r0.Created == d.Created && r0.Expiry == d.Expiry && r0.ProtocolVersion == d.Version
